@@ -89,6 +89,17 @@ def run(ctx):
               '(take [1,2,3] 2)', '(take\t[1,2,3]\t2)', '( take [1,2,3] 2 )', '(concat "a" "b" "c")']
     for ei, e in enumerate(xexprs):
         corpus.append(mkcase('X%d' % ei, lib.new_cfg(select=[e + '=x']), xin))
+    # strings with combining marks, ZWJ sequences, astral characters; separators that are prefixes of each other; keys spelled with escapes;
+    # number/string conversions with exponents and escapes; mixed types in aggregates
+    yin = '{"s": "e\\u0301a\\u200d\U0001F469\\u200d\U0001F4BBz", "t": "a,,b,;c", "o": {"a": 1, "\\u0061": 2, "\\u00e9": 3, "Z": 4, "aa": 5}, "l": [3, "x", null, 2.5, [1], true, -1], "n": ["1e2", "0x10", "1_000", " 7", "7 ", "-0", "1e400", ".5", "5."], "f": [0.1, 0.2, 0.3, 1e-20, 1e20, -1e20]}'.encode('utf8')
+    yexprs = ['(size .s)', '(head .s 2)', '(tail .s 2)', '(sub .s 1 3)', '(take .s 2)', '(take_last .s 1)', '(split .s "")', '(split .t ",")', '(split .t ",,")', '(split .t ";")', '(join (split .t ",") ",")', '(join (split .t ",,") ",,")',
+              '(keys .o)', '(values .o)', '(sort_by_keys .o)', '(get .o "a")', '(get .o "\\u0061")', '(get .l 1.0)', '(get .l 1.5)', '(get .l "1")', '(get .o 0)', '.l#1', '.s#0', '.o.a', '.l.a',
+              '(sort .l)', '(min .l)', '(max .l)', '(sum .l)', '(sum .f)', '(avg .f)', '(sum [])', '(avg [])', '(min [])', '(concat "a" 1)', '(concat [1] [2] "x")', '(concat "a" null "b")',
+              '(map .n (as_number .))', '(map .n (parse .))', '(map .l (as_string .))', '(map .l (stringify .))', '(map .l (parse (stringify .)))', '(stringify .s)', '(parse (stringify .s))', '(parse (stringify .o))',
+              '(zip [1, 2, 3] ["a", "b"])', '(zip [] [1])', '(cross [1, 2] ["a"])', '(cross [] [1])', '(flat_map .l (? (array? .) . null))', '(flat_map [[1], 2, [3, [4]]] .)', '(range 0)', '(range 3)', '(range 2.0)',
+              '(group_by .l (as_string (array? .)))', '(sort_by .l (? (number? .) . 0))', '(first [])', '(last [])', '(reverese .s)', '(uppercase .s)', '(lowercase "ÀÉ\u0130")', '(trim "\u00a0 x \t")']
+    for ei, e in enumerate(yexprs):
+        corpus.append(mkcase('Y%d' % ei, lib.new_cfg(select=[e + '=x']), yin))
     for oi, ob in enumerate(objs):
         for ei, e in enumerate(oexprs):
             corpus.append(mkcase('O%d_%d' % (oi, ei), lib.new_cfg(select=[e + '=x']), ob))
